@@ -164,6 +164,14 @@ class Ctx:
         return bad
 
     # ------------------------------------------------------------------ verdicts
+    def deviation(self, clause):
+        """The implementation deviates from the specification in a clause the property does not demand (see
+        parallel.validate_chunks): reported, never fatal."""
+        d = self.notes.setdefault('spec_deviations', {})
+        d[clause] = d.get(clause, 0) + 1
+        if d[clause] == 1:
+            print(f'SPEC-DEVIATION property={self.pid} {clause} (property clauses hold on that trace; not a violation)', flush=True)
+
     def violation(self, key, desc, replay_obj):
         """Record a violation.  key identifies the failing input / call site for the known-findings file."""
         for k in self.known:
@@ -194,6 +202,7 @@ class Ctx:
             cov['explanation'] = self.explanation
         if self.exhaustive is not None:
             cov['exhaustive'] = self.exhaustive
+        self.notes.setdefault('spec_deviations', {})
         cov.update(self.notes)
         cov['repo_root'] = REPO
         ev = dict(property_id=self.pid, tier=self.tier, seed=self.seed, level=self.level, coverage=cov,
